@@ -147,6 +147,41 @@ theorem stale_ignored_snapshot (F : Fmt) (L : Lawful F) (a b : Nat) (ops : List 
     snapshotBytes F a ops = snapshotBytes F b ops := by
   rw [snapshotBytes_eq F L, snapshotBytes_eq F L]
 
+/-! ### containers whose header does not depend on the running lengths (PVF) -/
+
+theorem run_inv_const (F : Fmt) (hc : ∀ f g, F.hdr f = F.hdr g) (ops : List WOp) : ∀ s : St, s.hdr = F.hdr {} →
+    (run F s ops).hdr = F.hdr {} ∧ (run F s ops).data = s.data ++ opsData ops := by
+  induction ops with
+  | nil => intro s h; exact ⟨h, by simp [run, opsData]⟩
+  | cons op r ih =>
+    intro s h
+    have h1 : (stepOp F s op).hdr = F.hdr {} ∧ (stepOp F s op).data = s.data ++ opsData [op] := by
+      cases op with
+      | write enc auto =>
+        refine ⟨?_, by simp [stepOp, write_data, opsData]⟩
+        simp only [stepOp, write]
+        by_cases hd : s.data.isEmpty = true <;> cases auto <;> simp [hd, emit, h, hc _ ({} : Fields)]
+      | update => exact ⟨by simp [stepOp, update, emit, hc _ ({} : Fields)], by simp [stepOp, update, emit_data, opsData]⟩
+    obtain ⟨h3, h4⟩ := ih (stepOp F s op) h1.1
+    have : run F s (op :: r) = run F (stepOp F s op) r := rfl
+    rw [this]
+    refine ⟨h3, ?_⟩
+    rw [h4, h1.2]
+    cases op <;> simp [opsData]
+
+theorem closedBytes_const (F : Fmt) (hc : ∀ f g, F.hdr f = F.hdr g) (stale : Nat) (ops : List WOp) :
+    closedBytes F stale ops = F.hdr {} ++ opsData ops ∧ snapshotBytes F stale ops = F.hdr {} ++ opsData ops := by
+  have ho : (openW F stale).hdr = F.hdr {} := by simp [openW, emit, hc _ ({} : Fields)]
+  obtain ⟨h1, h2⟩ := run_inv_const F hc ops (openW F stale) ho
+  have hd : (run F (openW F stale) ops).data = opsData ops := by rw [h2, open_data]; simp
+  refine ⟨?_, ?_⟩
+  · unfold closedBytes close St.bytes
+    split
+    · simp only [emit]; rw [hd]; simp [hc _ ({} : Fields)]
+    · rw [h1, hd]
+  · unfold snapshotBytes update St.bytes
+    simp only [emit]; rw [hd]; simp [hc _ ({} : Fields)]
+
 /-- every write call stores whole frames -/
 def wholeOp (bw : Nat) : WOp → Prop
   | .write enc _ => enc.length % bw = 0
